@@ -48,21 +48,27 @@ def judge(row, res):
         if row["pres"]:
             want = row["reenc"] if row["acc"] else row["bytes"]
             if res["enc"] != want:
-                if row["acc"] and res["enc"] == row["lh"]:
-                    vio.append(("%s/definite-length-head-width-lost" % ty,
-                                "%s accepts %s and re-encodes it as %s (width of a definite container's length head is not kept)"
-                                % (ty, inp, hexs(res["enc"]))))
+                if row["acc"] and res["enc"] == row["lh"] and row["lhw"]:
+                    for w in row["lhw"]:
+                        vio.append(("%s/definite-length-head-width-lost" % w,
+                                    "%s accepts %s and re-encodes it as %s (%s does not keep the width of a definite length head)"
+                                    % (ty, inp, hexs(res["enc"]), w)))
                 else:
                     vio.append(("%s/reencode-differs/%s" % (ty, row["cls"]),
                                 "%s accepts %s but re-encodes it as %s" % (ty, inp, hexs(res["enc"]))))
-        elif row["acc"] and res["enc"] != row["reenc"]:
+        elif row["acc"] and res["enc"] not in (row["reenc"], row["lh"]):
             drift.append("%s re-encodes %s as %s, design model %s" % (ty, inp, hexs(res["enc"]), hexs(row["reenc"])))
         rd = res["redec"]
         if not (rd["ok"] and rd["same"] and strip_raw(rd["view"]) == strip_raw(res["view"])):
             vio.append(("%s/value-roundtrip/%s" % (wr, row["cls"]),
                         "%s: value decoded from %s does not survive encode+decode: %s" % (ty, inp, json.dumps(rd)[:300])))
         if row["mutable"]:
-            if res.get("mut") != row["mut"]:
+            if res.get("mut") != row["mut"] and res.get("mut") == row["mut_lh"] and row["mut_lhw"]:
+                for w in row["mut_lhw"]:
+                    vio.append(("%s/definite-length-head-width-lost" % w,
+                                "%s decoded from %s and mutated encodes as %s (%s does not keep the width of a definite length head)"
+                                % (ty, inp, hexs(res["mut"]), w)))
+            elif res.get("mut") != row["mut"]:
                 vio.append(("%s/mutation-reencode" % ty,
                             "%s decoded from %s, after deref_mut().push(3), encodes as %s; new content encodes as %s"
                             % (ty, inp, hexs(res.get("mut") or []), hexs(row["mut"]))))
@@ -133,8 +139,13 @@ def run(ctx):
     nv, drifts = evaluate(ctx, rows, results)
     ctx.cov["failing_vectors"] = nv
     ctx.cov["drift_count"] = len(drifts)
-    for d in drifts[:12]:
-        ctx.notes.append("DRIFT " + d)
+    by_cat = {}
+    for d in drifts:
+        w = d.split(" ")
+        cat = w[0] + " " + (w[1] if w[1] in ("accepts", "rejects", "decodes", "re-encodes", "panics", "built") else "")
+        by_cat.setdefault(cat, []).append(d)
+    for cat in sorted(by_cat)[:14]:
+        ctx.notes.append("DRIFT (%d x) e.g. %s" % (len(by_cat[cat]), by_cat[cat][0][:260]))
     pick = [i for i, r in enumerate(rows) if r["ty"] == "keepraw<vec<u32>>" and r["mutable"]][:1] + \
            [i for i, r in enumerate(rows) if r["ty"] == "kvp<anyuint,mia<anyuint>>" and r["acc"] and r["cls"] == "indef"][:1]
     for i in pick:
